@@ -2,7 +2,7 @@
 C11 ∘ C08 — the condition and join theorems restated on RAW cells: the cast is C08's model of
 `tsdb.cast`, no longer a parameter.  Definitions in Compose.lean; C08's model is imported, not edited.
 -/
-import Verif.C11.Compose
+import Verif.C11.ComposeLemmas
 import Verif.C11.Props
 
 namespace Verif.C11.Compose
@@ -30,8 +30,7 @@ theorem empty_raw_cell (rx : List Char → List Char → Bool) (dt : DType) (raw
   rw [hv]
   cases op <;> cases l <;> rfl
 
-theorem isDigit_eq (c : Char) : Verif.C08.isDigit c = isDigitC c := by
-  simp only [Verif.C08.isDigit, Char.isDigit, isDigitC, Char.le_def, ge_iff_le]
+
 
 /-- `int()` is defined on every INT lexeme of the lexer (ASCII): the literal step cannot fail -/
 theorem intOf_lexeme (s : List Char) (h : isIntLexeme s = true) : ∃ i, intOf s = some i := by
@@ -69,29 +68,11 @@ theorem intOf_lexeme (s : List Char) (h : isIntLexeme s = true) : ∃ i, intOf s
         exact ⟨i, by simp [intOf, hi]⟩
 
 
-theorem castInt_digits (ds : List Char) (hne : ds ≠ []) (hd : ds.all Verif.C08.isDigit = true) :
-    Verif.C08.castInt ds = .ok (Verif.C08.digitsToNat ds : Int) := by
-  cases ds with
-  | nil => exact absurd rfl hne
-  | cons c cs =>
-    have hc : Verif.C08.isDigit c = true := by simp only [List.all_cons, Bool.and_eq_true] at hd; exact hd.1
-    have hm : c ≠ '-' := by intro e; subst e; revert hc; decide
-    have hp : c ≠ '+' := by intro e; subst e; revert hc; decide
-    unfold Verif.C08.castInt
-    split
-    rename_i neg body heq
-    split at heq
-    · rename_i e; cases e; exact absurd rfl hm
-    · rename_i e; cases e; exact absurd rfl hp
-    · cases heq; simp [hd]
 
-theorem castInt_plus (ds : List Char) (hne : ds ≠ []) (hd : ds.all Verif.C08.isDigit = true) :
-    Verif.C08.castInt ('+' :: ds) = .ok (Verif.C08.digitsToNat ds : Int) := by
-  have he : ds.isEmpty = false := by cases ds <;> simp_all
-  simp [Verif.C08.castInt, he, hd]
 
-theorem digitsToNat_zero (ds : List Char) : Verif.C08.digitsToNat ('0' :: ds) = Verif.C08.digitsToNat ds := by
-  simp [Verif.C08.digitsToNat]
+
+
+
 
 /-- "`01` = `1` under :integer": leading zeros and a leading `+` do not change the cast value of
 an integer cell, so `07`, `+7` and `7` are the same key and satisfy the same comparisons -/
@@ -174,65 +155,19 @@ theorem selectRaw_bridge (rx : List Char → List Char → Bool) (rdb : RawDB) (
 witness rows of the CAST database (one per relation), the condition holding on their cast values -/
 theorem selectRaw_sound (rx : List Char → List Char → Bool) (rdb : RawDB) (q : Query) (res : Result)
     (h : selectRaw rx rdb q = .ok res) :
-    ∃ db proj cond, castDB rdb = some db ∧ resolveProj db q = .ok proj ∧ resolveQCond db q = .ok cond ∧
+    ∃ db proj cond plan, castDB rdb = some db ∧ resolveProj db q = .ok proj ∧ resolveQCond db q = .ok cond ∧
+      planJoins db proj (condFieldsOpt cond) q.rels = .ok plan ∧
       ∀ out ∈ res.rows, ∃ (w : String → List Cell) (cells : List Cell),
         out = cells.map (·.raw) ∧ CellsOf db w proj cells ∧
-        (∀ c, cond = some c → evalW rx db w c = true) := by
+        (∀ c, cond = some c → evalW rx db w c = true) ∧ JoinWitness db plan w := by
   obtain ⟨db, hdb, hsel⟩ := selectRaw_bridge rx rdb q res h
-  obtain ⟨proj, cond, h1, h2, h3⟩ := select_sound rx db q res hsel
-  exact ⟨db, proj, cond, hdb, h1, h2, h3⟩
+  obtain ⟨proj, cond, plan, h1, h2, h3, h4⟩ := select_sound rx db q res hsel
+  exact ⟨db, proj, cond, plan, hdb, h1, h2, h3, h4⟩
 
 
-theorem castRows_mem : ∀ (fs : List Field) (rs : List (List (Option (List Char)))) (out : List (List Cell)),
-    castRows fs rs = some out → ∀ row ∈ out, ∃ r ∈ rs, castRow fs r = some row := by
-  intro fs rs
-  induction rs with
-  | nil => intro out h; simp only [castRows] at h; cases h; simp
-  | cons r rs ih =>
-    intro out h
-    simp only [castRows] at h
-    cases hr : castRow fs r with
-    | none => simp [hr] at h
-    | some c =>
-      cases hrs : castRows fs rs with
-      | none => simp [hr, hrs] at h
-      | some cs =>
-        simp only [hr, hrs, Option.some.injEq] at h
-        subst h
-        intro row hrow
-        rcases List.mem_cons.mp hrow with e | e
-        · exact ⟨r, by simp, by rw [e]; exact hr⟩
-        · obtain ⟨r', hr', h'⟩ := ih cs hrs row e
-          exact ⟨r', by simp [hr'], h'⟩
 
-theorem castDB_mem : ∀ (rdb : RawDB) (db : DB), castDB rdb = some db →
-    ∀ rel ∈ db, ∃ rr ∈ rdb, rel.name = rr.name ∧ rel.fields = rr.fields ∧ castRows rr.fields rr.rows = some rel.rows := by
-  intro rdb
-  induction rdb with
-  | nil => intro db h; simp only [castDB] at h; cases h; simp
-  | cons rr rdb ih =>
-    intro db h
-    simp only [castDB] at h
-    cases hr : castRel rr with
-    | none => simp [hr] at h
-    | some c =>
-      cases hrs : castDB rdb with
-      | none => simp [hr, hrs] at h
-      | some cs =>
-        simp only [hr, hrs, Option.some.injEq] at h
-        subst h
-        intro rel hrel
-        rcases List.mem_cons.mp hrel with e | e
-        · subst e
-          simp only [castRel] at hr
-          cases hrows : castRows rr.fields rr.rows with
-          | none => simp [hrows] at hr
-          | some rows =>
-            simp only [hrows, Option.map_some, Option.some.injEq] at hr
-            subst hr
-            exact ⟨rr, by simp, rfl, rfl, hrows⟩
-        · obtain ⟨rr', hm, h'⟩ := ih cs hrs rel e
-          exact ⟨rr', by simp [hm], h'⟩
+
+
 
 /-- "key equality in joins is equality of CAST values": in the cast database every cell of every
 stored row carries, as its value, C08's cast of its raw text under its column's datatype — and the
